@@ -39,12 +39,20 @@ var commonAssumptions = []string{
 }
 
 func init() {
+	register(&PropSpec{ID: "C02", Explanation: "x", Assumptions: commonAssumptions,
+		Rules: []func(*Ctx){ruleCmdIdent, ruleOverflowIdiom, ruleMsetnxPhase, a7Files(20, "redisKeys.go")}})
+	register(&PropSpec{ID: "C03", Explanation: "x", Assumptions: commonAssumptions,
+		Rules: []func(*Ctx){ruleDetached, a7Files(20, "redisList.go")}})
+	register(&PropSpec{ID: "C04", Explanation: "x", Assumptions: commonAssumptions,
+		Rules: []func(*Ctx){ruleSiblingParam, ruleOverflowIdiom, a7Files(20, "redisHashTable.go")}})
+	register(&PropSpec{ID: "C05", Explanation: "x", Assumptions: commonAssumptions,
+		Rules: []func(*Ctx){ruleReadonly(nil), a7Files(15, "redisSet.go")}})
 	register(&PropSpec{
 		ID: "C06",
 		Explanation: "Structural necessary conditions of keyspace discipline, decided for every site of the current source: (A4-empty) after every site that can shrink a list/hash/set, every path to the end of the critical section tests the aggregate's count against zero and removes the key on the empty side; (A7, files redisCore.go) every option the keyspace handlers look up can be produced by the grammar. The check decides these structural clauses for all paths; it does not decide reply values.",
 		NotDecided:  "glob matching, SORT ordering, DBSIZE/KEYS values, WRONGTYPE replies as values, deep-copy equality of COPY/RENAME (see R-payload-agree when present)",
 		Assumptions: commonAssumptions,
-		Rules:       []func(*Ctx){ruleA4Empty, a7Files(20, "redisCore.go")},
+		Rules:       []func(*Ctx){ruleA4Empty, rulePayloadAgree, ruleCtorAgree, ruleTypedNil, a7Files(20, "redisCore.go")},
 	})
 	register(&PropSpec{
 		ID: "C07",
@@ -65,21 +73,21 @@ func init() {
 		Explanation: "Structure of the MULTI/EXEC implementation, decided on all paths: state reset on every exit of EXEC/DISCARD; commands are only queued while a queue exists (append guard, non-nil response after append, handler call dominated by response==nil, control table = {multi,exec,discard,watch}); EXEC replays under the exclusive database hold with the lock id rewritten; error branches of the control commands do not touch queue/watches; a command rejected while queueing leaves a mark EXEC reads; nothing replayable takes the database mutex non-re-entrantly.",
 		NotDecided:  "isolation against other connections beyond the lock argument of C08; reply contents",
 		Assumptions: commonAssumptions,
-		Rules:       []func(*Ctx){ruleC09Reset, ruleC09QueueOnly, ruleC09Exclusive, ruleC09AbortFlag, ruleC09ErrorsInert, ruleA2Reentrant},
+		Rules:       []func(*Ctx){ruleC09Reset, ruleC09QueueOnly, ruleC09Exclusive, ruleC09AbortFlag, ruleC09ErrorsInert, ruleA2Reentrant, ruleC09Bind},
 	})
 	register(&PropSpec{
 		ID: "C10",
 		Explanation: "A4-version: 'every kind of modification is visible to the comparison at EXEC' is a claim over all write sites: every mutation site of database state has, on every path through it inside its critical section, an event that gives the key a new version id or removes it from the keyspace.",
 		NotDecided:  "the 'iff' across arbitrary interleavings (follows from C08's lock argument plus this rule); expiry-as-modification timing",
 		Assumptions: append([]string{"a helper that looks the key up and bumps its version is given the key of the object being modified (the not-found edge of that lookup is not followed)"}, commonAssumptions...),
-		Rules:       []func(*Ctx){ruleA4Version},
+		Rules:       []func(*Ctx){ruleA4Version, ruleA6, ruleC09Reset},
 	})
 	register(&PropSpec{
 		ID: "C13",
 		Explanation: "No path of these crash classes is reachable from the socket: (A7) every single-result type assertion on a value taken from a command's args agrees with what the grammar-driven parser stores for every token that reaches it, and every panic in the default arm of a key switch has a case for every producible key.",
 		NotDecided:  "bounds safety of indexes computed from untainted server-side lengths, termination of loops, memory growth, reply latency",
 		Assumptions: commonAssumptions,
-		Rules:       []func(*Ctx){ruleA7(nil, 120, true)},
+		Rules:       []func(*Ctx){ruleA7(nil, 120, true), ruleLockBalanced(nil), ruleA2Reentrant, ruleTypedNil, rulePayloadAgree, ruleCmdIdent},
 	})
 	register(&PropSpec{
 		ID: "C16",
